@@ -34,6 +34,19 @@ INVALID_TEXTS = [
     ("typedef of an undeclared template", "typedef Missing<int> M;"),
     ("typedef target declared twice", "template<T> class D { }; template<T> class D { }; typedef D<int> DI;"),
     ("class template instantiated with too few arguments", "template<T, U> class P { }; typedef P<int> PI;"),
+    ("const after a static method", "class A { static double f(int a) const; };"),
+    ("const after a constructor", "class A { A(int a) const; };"),
+    ("const after a free function", "double f(int a) const;"),
+    ("static free function", "static double f(int a);"),
+    ("virtual on a method", "class A { virtual void f(); };"),
+    ("non-const operator", "class A { A operator+(const A& o); };"),
+    ("enum without enumerators", "enum E { };"),
+    ("class without trailing semicolon", "class A { A(); } class B { };"),
+    ("typedef of a non-templated type", "class A { }; typedef A B;"),
+    ("template header without parameters", "template<> class A { };"),
+    ("two base classes", "class A : B, C { };"),
+    ("argument without a name", "void f(int);"),
+    ("default without a value", "void f(int a = );"),
 ]
 NI = len(INVALID_TEXTS)
 
